@@ -409,3 +409,33 @@ Definition run_pipeline (nc : sexp) (x : sexp) : sexp :=
     end
   | _, _ => L [T"bad-view"]
   end.
+
+(* ---- docstring types (Model/DocTypes.v) ---- *)
+From SV Require Import Model.DocTypes.
+
+Fixpoint gexpr_of_sx_f (fuel : nat) (x : sexp) : option gexpr :=
+  match fuel with O => None | S fu =>
+  let rec := gexpr_of_sx_f fu in
+  match x with
+  | L [A t] => if tag_is "other" t then Some GOther else None
+  | L [A t; y] =>
+    if tag_is "list" t then option_map GList (sx_listof rec y)
+    else if tag_is "boolop" t then option_map GBoolOp (sx_listof rec y)
+    else if tag_is "tuple" t then
+      option_map GTuple (sx_listof (fun z => match z with L [cp; e] => odo cp' <- sx_opt sx_str cp; odo e' <- rec e; Some (cp', e') | _ => None end) y)
+    else None
+  | L [A t; a; b] =>
+    if tag_is "name" t then match a, b with A cn, A cp => Some (GName cn cp) | _, _ => None end
+    else if tag_is "binop" t then odo l <- rec a; odo r <- rec b; Some (GBinOp l r)
+    else if tag_is "str" t then match a with A s => option_map (GStr s) (rec b) | _ => None end
+    else None
+  | L [A t; A cn; A cp; sl] => if tag_is "sub" t then option_map (GSub cn cp) (rec sl) else None
+  | _ => None
+  end end.
+Definition gexpr_of_sx (x : sexp) : option gexpr := gexpr_of_sx_f (sexp_depth x) x.
+
+Definition run_doc_type (numpy e : sexp) : sexp :=
+  match sx_bool numpy, gexpr_of_sx e with
+  | Some n, Some g => of_opt sx_of_ty (doc_type n g)
+  | _, _ => L [T"bad-case"]
+  end.
